@@ -1,6 +1,7 @@
 package checks
 
 import (
+	"bufio"
 	"bytes"
 	"context"
 	"fmt"
@@ -8,6 +9,7 @@ import (
 	"net"
 	"os"
 	"path/filepath"
+	"strings"
 	"syscall"
 
 	"github.com/tormoder/fit"
@@ -392,6 +394,57 @@ func c11Run(c *lib.Ctx, rng *lib.Rand, idx uint64, nfiles int, large bool) {
 			c.Count("cuts_read_through_os_file", 1)
 		}
 	}
+	// The same clean cuts through readers of other dynamic types, which offer more than Read
+	// (look-ahead, length, seeking, ReadByte, WriteTo): bufio.Reader with its default and with a
+	// 16-byte buffer, a reader with a Peek method of its own, bytes.Buffer, bytes.Reader,
+	// strings.Reader, io.SectionReader. Whatever a decoder learns that way, a cut stream is a cut
+	// stream. All kinds at offsets up to 16 bytes past a file boundary, one kind (rotating) elsewhere.
+	mkReaders := []struct {
+		name string
+		mk   func(b []byte) io.Reader
+	}{
+		{"bufio.Reader", func(b []byte) io.Reader { return bufio.NewReader(bytes.NewReader(b)) }},
+		{"bufio.Reader(16)", func(b []byte) io.Reader {
+			return bufio.NewReaderSize(&lib.Reader{Data: b, Limit: len(b), Ch: lib.Chunker{Kind: "one"}}, 16)
+		}},
+		{"a reader with Peek", func(b []byte) io.Reader { return &peekReader{b: b} }},
+		{"bytes.Buffer", func(b []byte) io.Reader { return bytes.NewBuffer(append([]byte{}, b...)) }},
+		{"bytes.Reader", func(b []byte) io.Reader { return bytes.NewReader(b) }},
+		{"strings.Reader", func(b []byte) io.Reader { return strings.NewReader(string(b)) }},
+		{"io.SectionReader", func(b []byte) io.Reader { return io.NewSectionReader(bytes.NewReader(b), 0, int64(len(b))) }},
+	}
+	for cut := 0; cut < len(stream); cut++ {
+		nearBound := false
+		for _, bd := range bounds {
+			if cut >= bd && cut <= bd+16 {
+				nearBound = true
+			}
+		}
+		if large && !nearBound && cut%4096 > 40 && cut%4096 < 4096-40 && cut%211 != 0 {
+			continue
+		}
+		for k, rk := range mkReaders {
+			if !nearBound && k != (cut+int(idx))%len(mkReaders) {
+				continue
+			}
+			for _, ep := range []string{"DecodeChained", "Decode"} {
+				var res lib.CallResult
+				c11WithOpts = false
+				r := rk.mk(stream[:cut])
+				o := lib.Guard(func() { res = lib.Call(ep, r) })
+				c.Eval()
+				where := fmt.Sprintf("%s on %s holding the first %d of %d bytes", ep, rk.name, cut, len(stream))
+				if o.Panicked || o.Hang {
+					c.Violation(stream, "%s: panicked/hung: %s", where, o.Panic)
+					return
+				}
+				if !c11Judge(c, stream, where, ep, cut, false, need[ep], res, intact[ep], files, bounds) {
+					return
+				}
+				c.Count("cuts_read_through_readers_with_extra_methods", 1)
+			}
+		}
+	}
 	n := int64(noffsets-1) * int64(len(faultKinds)) * int64(len(lib.EntryPoints)) * int64(len(chunkers))
 	c.NontrivialN(n)
 	c.Count("streams", 1)
@@ -575,4 +628,39 @@ func c11Judge(c *lib.Ctx, stream []byte, where, ep string, cut int, fault bool, 
 		}
 	}
 	return true
+}
+
+// peekReader: an in-memory reader with look-ahead of its own (Peek, Buffered, Discard), the
+// method set of a buffered reader without being one.
+type peekReader struct {
+	b   []byte
+	pos int
+}
+
+func (p *peekReader) Read(q []byte) (int, error) {
+	if p.pos >= len(p.b) {
+		return 0, io.EOF
+	}
+	n := copy(q, p.b[p.pos:])
+	p.pos += n
+	return n, nil
+}
+
+func (p *peekReader) Peek(n int) ([]byte, error) {
+	if p.pos+n > len(p.b) {
+		return p.b[p.pos:], io.EOF
+	}
+	return p.b[p.pos : p.pos+n], nil
+}
+
+func (p *peekReader) Buffered() int { return len(p.b) - p.pos }
+
+func (p *peekReader) Discard(n int) (int, error) {
+	if p.pos+n > len(p.b) {
+		d := len(p.b) - p.pos
+		p.pos = len(p.b)
+		return d, io.EOF
+	}
+	p.pos += n
+	return n, nil
 }
